@@ -135,6 +135,8 @@ module N :
 
   val ltb : n -> n -> bool
 
+  val min : n -> n -> n
+
   val div2 : n -> n
 
   val pow : n -> n -> n
@@ -226,10 +228,6 @@ type gstate = t * t option
 val cmp_loop : backend -> geom -> nat -> n -> t -> t -> (t * t) * bool
 
 val gen_step : backend -> geom -> gstate -> op -> gstate * res
-
-val run : backend -> geom -> gstate -> op list -> res list
-
-val run0 : backend -> geom -> op list -> res list
 
 type fset = n -> bool
 
@@ -357,8 +355,22 @@ val ba_set : ba -> n -> n -> bool list -> ba
 
 val bA : n -> backend
 
-val run_rb : geom -> op list -> res list
+val copy_bits : backend -> nat -> n -> t -> t -> t
 
-val run_ba : n -> geom -> op list -> res list
+val resize_geom : geom -> n -> n -> geom
 
-val run_fs : geom -> op list -> res list
+val resize_state : backend -> geom -> n -> gstate -> gstate
+
+type sop =
+| SOp of op
+| SResize of n * n
+
+val run_seg : backend -> geom -> gstate -> sop list -> res list
+
+val run_seg0 : backend -> geom -> sop list -> res list
+
+val run_rb : geom -> sop list -> res list
+
+val run_ba : n -> geom -> sop list -> res list
+
+val run_fs : geom -> sop list -> res list
